@@ -118,7 +118,7 @@ impl Monitor for C01 {
             J::obj().with("max_operators", J::u(n_ops as u64)).with("patterns_total", J::u(idx)).with("patterns_this_shard", J::u(patterns)).with("inputs_per_pattern", J::u(inputs.len() as u64)).with("input_alphabet", J::s("a b \\n")).with("max_input_len", J::u(len as u64)),
         );
         // (b) random structured patterns under every flag subset
-        let n = w.share(60_000, 4_000_000);
+        let n = w.share(200_000, 6_000_000);
         let mut rng = w.rng("C01", 1);
         let cfg = GenCfg::std(STD_ALPHA);
         for k in 0..n {
